@@ -344,19 +344,25 @@ fn fam_5(thorough: bool) -> Vec<Case> {
     macro_rules! td_case {
         ($k:ident, $name:expr) => {
             for &delta in &[10.0f64, 100.0, 1000.0] {
-                for &(backlog, wmode) in &[(0usize, 0usize), (100, 0), (10_000, 0), (100, 1), (0, 2), (100, 3), (10_000, 1), (10, 4), (100, 5)] {
-                    // weights: 0 = unit, 1 = all 2.0, 2 = all 0.5, 3 = cycling 1..=5 (the documented bound
-                    // is on the number of centroids, whatever the weights)
+                for &(backlog, wmode) in &[(0usize, 0usize), (100, 0), (10_000, 0), (100, 1), (0, 2), (100, 3), (10_000, 1), (10, 4), (100, 5), (0, 6), (100, 7)] {
+                    // weights: 0 = unit, 1 = all 2.0, 2 = all 0.5, 3 = cycling 1..=5, 6 = all 2^-40 (the total stays below 1),
+                    // 7 = cycling 2^-40, 2^40, 0.75 (the documented bound is on the number of centroids, whatever the weights)
                     let base = live();
             let mut noise = 0i64;
                     let mut d = TDigest::new($k::new(delta), backlog);
-                    let mut c = Case { name: format!("TDigest {}(delta={}) backlog={} weights={}", $name, delta, backlog, ["unit", "2.0", "0.5", "1..5", "unit, read after every insert", "unit, cdf after every insert"][wmode]), documented: 16.0 * (delta + 3.0 + backlog as f64 + 1.0), points: vec![], flat: vec![] };
+                    let mut c = Case { name: format!("TDigest {}(delta={}) backlog={} weights={}", $name, delta, backlog, ["unit", "2.0", "0.5", "1..5", "unit, read after every insert", "unit, cdf after every insert", "2^-40", "2^-40, 2^40, 0.75"][wmode]), documented: 16.0 * (delta + 3.0 + backlog as f64 + 1.0), points: vec![], flat: vec![] };
             noise += c.name.capacity() as i64;
                     rec(&mut c, &mut noise, base, "constructed".into());
                     let mut n = 0usize;
                     let cap = if wmode >= 4 { 10_000 } else if backlog == 0 && delta >= 1000.0 { 100_000 } else { last };
+                    let mut runaway = false;
                     for &len in ls.iter().filter(|&&x| x <= cap) {
                         while n < len {
+                            // runaway growth (a digest that stops fusing costs O(n) per insert): stop, the verdict below reports it
+                            if n % 256 == 0 && (live() - base) as f64 > 3.0 * c.documented + 65_536.0 {
+                                runaway = true;
+                                break;
+                            }
                             let x = (mix(n as u64) % 1_000_003) as f64 * 0.001;
                             match wmode {
                                 0 => d.insert(x),
@@ -367,6 +373,8 @@ fn fam_5(thorough: bool) -> Vec<Case> {
                                     d.insert(x);
                                     let _ = d.quantile(0.5);
                                 }
+                                6 => d.insert_weighted(x, 2f64.powi(-40)),
+                                7 => d.insert_weighted(x, [2f64.powi(-40), 2f64.powi(40), 0.75][n % 3]),
                                 _ => {
                                     d.insert(x);
                                     let _ = d.cdf(x);
@@ -374,7 +382,10 @@ fn fam_5(thorough: bool) -> Vec<Case> {
                             }
                             n += 1;
                         }
-                        rec(&mut c, &mut noise, base, format!("after {} inserts", len));
+                        rec(&mut c, &mut noise, base, format!("after {} inserts", n));
+                        if runaway {
+                            break;
+                        }
                         let _ = d.quantile(0.5);
                         rec(&mut c, &mut noise, base, format!("after {} inserts + read", len));
                     }
